@@ -15,6 +15,10 @@ func (k msgServer) StoreSignature(goCtx context.Context, msg *types.MsgStoreSign
 	defer telemetry.IncrCounter(1, types.ModuleName, "store signature message")
 	ctx := sdk.UnwrapSDKContext(goCtx)
 
+	if len(msg.StorageKey) == 0 {
+		return nil, sdkerrors.Wrap(sdkerrors.ErrInvalidRequest, "storage key cannot be empty")
+	}
+
 	var signatureObject types.Signature
 	var signatureJSON = msg.SignatureJSON
 	var err error
